@@ -222,7 +222,7 @@ class BaseNodeVisitor(ast.NodeVisitor):
         changes = collections.defaultdict(list)
         with qcore.override(self.__class__, "_changes_for_fixer", changes):
             result = self.check()
-        lines = [line + "\n" for line in self.contents.splitlines()]
+        lines = list(self._lines())
         if self.filename in changes:
             lines = self._apply_changes_to_lines(changes[self.filename], lines)
         return result, "".join(lines)
@@ -234,7 +234,13 @@ class BaseNodeVisitor(ast.NodeVisitor):
 
     @qcore.caching.cached_per_instance()
     def _lines(self) -> list[str]:
-        return [line + "\n" for line in self.contents.splitlines()]
+        # Split only where the tokenizer (and file.readlines()) split: str.splitlines()
+        # also breaks at form feeds and other separators, which shifts every later line
+        # relative to the AST's line numbers.
+        lines = re.split(r"\r\n|\r|\n", self.contents)
+        if lines and not lines[-1]:
+            lines.pop()
+        return [line + "\n" for line in lines]
 
     @qcore.caching.cached_per_instance()
     def has_file_level_ignore(
